@@ -833,22 +833,31 @@ def rule_pickle_guard(ctx: Ctx) -> None:
             "state is returned only under a test of `shared`, otherwise raises", "__getstate__ returns the state on a path that does not test `shared` (or never raises): non-shared caches are pickled silently", key="getstate-guard")
 
 
-def _applied_when(fn: FuncInfo, call: ast.Call) -> ast.AST:
-    """The condition under which `call` is evaluated inside `fn`: conjunction of the enclosing if / conditional-expression tests."""
-    par = _parents(fn.node)
+def _applied_when(ctx: Ctx, fn: FuncInfo, call: ast.Call) -> ast.AST:
+    """The condition under which `call` is evaluated inside `fn`: the branch decisions every path to its statement takes (early
+    returns included), and the tests of the conditional expressions it sits in."""
+    from ..flow import guard_facts, parse_expr
+
     d = Defs(fn)
     conj: list[ast.AST] = []
+    cfg = ctx.cfg(fn)
+    nd = cfg.node_containing(call)
+    if nd is not None:
+        for text, pol in guard_facts(cfg, d, nd):
+            e = parse_expr(text)
+            conj.append(e if pol else ast.UnaryOp(op=ast.Not(), operand=e))
+    par = _parents(fn.node)
     x: ast.AST = call
     while id(x) in par:
         child, x = x, par[id(x)]
-        if isinstance(x, (ast.If, ast.IfExp)):
+        if isinstance(x, ast.IfExp):
             t = d.resolve(x.test)
-            in_body = child is x.body or (isinstance(x.body, list) and any(child is b_ for b_ in x.body))
-            in_else = child is x.orelse or (isinstance(x.orelse, list) and any(child is b_ for b_ in x.orelse))
-            if in_body:
+            if child is x.body:
                 conj.append(t)
-            elif in_else:
+            elif child is x.orelse:
                 conj.append(ast.UnaryOp(op=ast.Not(), operand=t))
+        if isinstance(x, ast.stmt):
+            break
     return ast.BoolOp(op=ast.And(), values=conj) if conj else ast.Constant(value=True)
 
 
@@ -874,7 +883,22 @@ def rule_codec_symmetric(ctx: Ctx) -> None:
         if not enc or not dec:
             ctx.add("6-pickle-guard", put if dec else get, (put if dec else get).node, False, f"{cname}: {'get() deserialises but put() never serialises' if dec else 'put() serialises but get() never deserialises'}", key=f"codec {cname}")
             continue
-        ge, gd = _applied_when(put, enc[0]), _applied_when(get, dec[0])
+        conts = set(SHARED[cname])
+        vparams = {p_ for p_ in put.param_names()[2:]}  # the stored value
+
+        def codec_relevant(g: ast.AST) -> ast.AST:
+            """Only the conjuncts that talk about the configuration of the cache or about the value: whether the key is present, how
+            full the cache is etc. decide IF something is stored / found, not in which form."""
+            vals = g.values if isinstance(g, ast.BoolOp) and isinstance(g.op, ast.And) else [g]
+            keep = []
+            for v in vals:
+                names = {x.id for x in ast.walk(v) if isinstance(x, ast.Name)}
+                attrs = {x.attr for x in ast.walk(v) if isinstance(x, ast.Attribute) and isinstance(x.value, ast.Name) and x.value.id == "self"}
+                if (names <= {"self"} and attrs and not (attrs & conts)) or (names & vparams):
+                    keep.append(v)
+            return ast.BoolOp(op=ast.And(), values=keep) if keep else ast.Constant(value=True)
+
+        ge, gd = codec_relevant(_applied_when(ctx, put, enc[0])), codec_relevant(_applied_when(ctx, get, dec[0]))
         atoms = sorted(set(bool_atoms(ge)) | set(bool_atoms(gd)))
         if len(atoms) > 8:
             ctx.add("6-pickle-guard", put, enc[0], None, f"UNDECIDED: {cname}: too many conditions around dumps/loads to compare", key=f"codec {cname}")
